@@ -435,8 +435,9 @@ def tyMap : String → Option TMap
   | "llong" => some (contiguous 1 (basic 1))
   | "pod" => some (contiguous 3 (basic 1))
   | "fv3" => some (fieldVector 0 3 (basic 1))
+  | "fv2" => some (fieldVector 0 2 (basic 1))
   | "big96" | "big40" => some (bigUnsigned 0 1 (basic 1))
-  | "pair" => some (pair 0 (basic 1) 1 (basic 1) 2)
+  | "pair" | "pairis" => some (pair 0 (basic 1) 1 (basic 1) 2)
   -- pair<long long, char>: the first member goes through the byte-wise fallback; nested in a pair / a FieldVector
   | "pairlc" => some (pair 0 (contiguous 1 (basic 1)) 1 (basic 1) 2)
   | "ppair" => some (pair 0 (pair 0 (contiguous 1 (basic 1)) 1 (basic 1) 2) 2 (basic 1) 3)
@@ -473,9 +474,50 @@ def affOp (f g : List Int) : List Int :=
   | [a1, b1, c1], [a2, b2, c2] => [(a1 * a2) % 1009, (a2 * b1 + b2) % 1009, c1 + c2]
   | _, _ => []
 
+/-- generic functors of the harness: ONE functor type applicable to many element types (`std::plus<>`,
+`std::multiplies<>`, `GMin`, `GMax`, `std::bit_xor<>`, `Left`, `Right`), and the named reduction each computes -/
+def isGenericFun (fn : String) : Bool :=
+  fn == "gsum" || fn == "gprod" || fn == "gmin" || fn == "gmax" || fn == "gxor" || fn == "left" || fn == "right"
+
+def plainFun : String → String
+  | "gsum" => "sum"
+  | "gprod" => "prod"
+  | "gmin" => "min"
+  | "gmax" => "max"
+  | "gxor" => "xor"
+  | fn => fn
+
+def arithTypes : List String :=
+  ["int", "long", "double", "uchar", "short", "ushort", "uint", "ulong", "float", "ldouble", "llong"]
+
+/-- the element types a generic functor is instantiated for -/
+def genericTypes (fn : String) : List String :=
+  if fn == "gxor" then ["int", "long", "uchar", "ushort", "uint", "ulong"]
+  else if fn == "gmin" || fn == "gmax" then arithTypes ++ ["big96", "big40"]
+  else if fn == "gprod" then arithTypes ++ ["big96", "big40", "complex", "cfloat", "cldouble"]
+  else if fn == "gsum" then arithTypes ++ ["big96", "big40", "complex", "cfloat", "cldouble", "fv3", "fv2"]
+  else if fn == "left" || fn == "right" then
+    arithTypes ++ ["big96", "big40", "complex", "cfloat", "cldouble", "fv3", "fv2", "pod"]
+  else []
+
+def genericOp (ty pf : String) : Option (List Int → List Int → List Int) :=
+  let modulus : Option Int := if ty == "big96" then some two96 else if ty == "big40" then some two48 else none
+  let cplx := ty == "complex" || ty == "cfloat" || ty == "cldouble"
+  match pf with
+  | "left" => some fun a _ => a
+  | "right" => some fun _ b => b
+  | "sum" => some (match modulus with | some m => zipOp fun a b => (a + b) % m | none => zipOp (· + ·))
+  | "prod" => some (if cplx then complexMul else match modulus with | some m => zipOp fun a b => (a * b) % m | none => zipOp (· * ·))
+  | "min" => some (zipOp min)
+  | "max" => some (zipOp max)
+  | "xor" => some (zipOp fun a b => Int.ofNat (a.toNat ^^^ b.toNat))
+  | _ => none
+
 /-- reduction functors of the harness at cell level: `op in inout` = `func(*in, *inout)` -/
 def redOp (ty fn : String) : Option (List Int → List Int → List Int) :=
-  if isLightArith ty then
+  if isGenericFun fn then
+    (if (genericTypes fn).contains ty then genericOp ty (plainFun fn) else none)
+  else if isLightArith ty then
     match fn with
     | "sum" => some (zipOp (· + ·))
     | "prod" => some (zipOp (· * ·))
@@ -491,7 +533,7 @@ def redOp (ty fn : String) : Option (List Int → List Int → List Int) :=
   match ty, fn with
   | "int", "first" => some fun a _ => a
   | "fv3", "aff" => some affOp
-  | "int", "sum" | "long", "sum" | "double", "sum" | "complex", "sum" | "fv3", "sum" => some (zipOp (· + ·))
+  | "int", "sum" | "long", "sum" | "double", "sum" | "complex", "sum" | "fv3", "sum" | "fv2", "sum" => some (zipOp (· + ·))
   | "int", "prod" | "long", "prod" | "double", "prod" => some (zipOp (· * ·))
   | "int", "min" | "long", "min" | "double", "min" | "big96", "min" => some (zipOp min)
   | "int", "max" | "long", "max" | "double", "max" | "big96", "max" | "fv3", "cwmax" => some (zipOp max)
@@ -506,8 +548,158 @@ def redOp (ty fn : String) : Option (List Int → List Int → List Int) :=
   | "big40", "prod" => some (zipOp fun a b => (a * b) % two48)
   | "big40", "min" => some (zipOp min)
   | "big40", "max" => some (zipOp max)
-  | "pair", "min" | "pairlc", "min" => some fun a b => if lexLt b a then b else a
-  | "pair", "max" | "pairlc", "max" => some fun a b => if lexLt a b then b else a
+  | "pair", "min" | "pairlc", "min" | "pairis", "min" => some fun a b => if lexLt b a then b else a
+  | "pair", "max" | "pairlc", "max" | "pairis", "max" => some fun a b => if lexLt a b then b else a
   | _, _ => none
+
+/-! ## lazily created singletons: one `MPI_Op` per instantiation of `Generic_MPI_Op`, one `MPI_Datatype` per
+instantiation of `MPITraits`
+
+`get()` / `getType()` have the shape `if (!handle) handle = create(); return handle;` where `handle` is static
+storage.  Which instantiations *share* that storage is decided by the entity that owns it (a static data member or a
+function-local static of the class template: one per full argument list; a variable template `v<A>`: one per `A`);
+what `create()` builds depends on the template parameters used in the creating code (the callback
+`operation(Type*, Type*, ...)` calling `BinaryFunction`, the members of the described type).  Template parameters are
+named by position (`"1"`, `"2"`, …); `tools/translators/tr_c07.py` extracts one `Row` per class template from the
+sources. -/
+namespace Reg
+
+/-- an instantiation: template parameter (by position) ↦ argument -/
+abbrev Inst := List (String × String)
+
+/-- a call of `get()` / `getType()` of the instantiation `inst` of the class template `family` -/
+structure Use where
+  family : String
+  inst : Inst
+deriving DecidableEq, Repr
+
+/-- `slot` = the template parameters that select the storage; `used` = those the created handle depends on -/
+structure Row where
+  family : String
+  slot : List String
+  used : List String
+deriving DecidableEq, Repr
+
+def argOf (i : Inst) (p : String) : Option String := (i.find? (fun e => e.1 == p)).map (·.2)
+def proj (ps : List String) (i : Inst) : List (Option String) := ps.map (argOf i)
+def rowOf (tbl : List Row) (fam : String) : Option Row := tbl.find? (fun r => r.family == fam)
+
+/-- storage cell selected by a use -/
+abbrev Key := String × List (Option String)
+/-- the static storage: which instantiation created the handle that sits in a cell -/
+abbrev Cache := List (Key × Inst)
+
+def lookup (c : Cache) (k : Key) : Option Inst := (c.find? (fun e => e.1 == k)).map (·.2)
+
+/-- `if (!handle) handle = create(); return handle;` — returns the instantiation whose `create()` made the handle
+that the caller gets.  A class template without a row keeps no state. -/
+def get (tbl : List Row) (c : Cache) (u : Use) : Inst × Cache :=
+  match rowOf tbl u.family with
+  | none => (u.inst, c)
+  | some r =>
+    let k : Key := (u.family, proj r.slot u.inst)
+    match lookup c k with
+    | some creator => (creator, c)
+    | none => (u.inst, (k, u.inst) :: c)
+
+/-- the state of the process after a history of calls -/
+def run (tbl : List Row) (c : Cache) (hist : List Use) : Cache := hist.foldl (fun c u => (get tbl c u).2) c
+
+/-- the handle the caller got is as good as its own: its creator agrees with the caller on every template
+parameter the creation depends on -/
+def faithful (tbl : List Row) (u : Use) (creator : Inst) : Bool :=
+  match rowOf tbl u.family with
+  | none => creator == u.inst
+  | some r => proj r.used creator == proj r.used u.inst
+
+/-- all calls of one step of a history: were all handles faithful, and the state afterwards -/
+def step (tbl : List Row) (c : Cache) (us : List Use) : Bool × Cache :=
+  us.foldl (fun acc u => let g := get tbl acc.2 u; (acc.1 && faithful tbl u g.1, g.2)) (true, c)
+
+/-- a history of steps from a given state: for every step, whether all its handles were faithful -/
+def runSteps (tbl : List Row) : Cache → List (List Use) → List Bool
+  | _, [] => []
+  | c, us :: rest => (step tbl c us).1 :: runSteps tbl (step tbl c us).2 rest
+
+end Reg
+
+/-! ### which singletons a harness call touches -/
+
+/-- C++ spelling of the harness element types (only used as registry arguments) -/
+def cppType : String → String
+  | "llong" => "long long"
+  | "uchar" => "unsigned char"
+  | "ushort" => "unsigned short"
+  | "uint" => "unsigned int"
+  | "ulong" => "unsigned long"
+  | "ldouble" => "long double"
+  | "complex" => "std::complex<double>"
+  | "cfloat" => "std::complex<float>"
+  | "cldouble" => "std::complex<long double>"
+  | "fv3" => "FieldVector<int,3>"
+  | "fv2" => "FieldVector<int,2>"
+  | "fvp" => "FieldVector<std::pair<long long,char>,2>"
+  | "big96" => "bigunsignedint<96>"
+  | "big40" => "bigunsignedint<40>"
+  | "pair" => "std::pair<int,char>"
+  | "pairis" => "std::pair<int,short>"
+  | "pairlc" => "std::pair<long long,char>"
+  | "ppair" => "std::pair<std::pair<long long,char>,short>"
+  | "pli" => "ParallelLocalIndex<int>"
+  | "ip" => "IndexPair<int,ParallelLocalIndex<int>>"
+  | "pod" => "Pod"
+  | t => t
+
+/-- the `MPITraits<…>::getType()` singletons behind an element type (the type itself first, then its members) -/
+def tyUses : String → List Reg.Use
+  | "llong" => [⟨"MPITraits<$1>", [("1", "long long")]⟩]
+  | "pod" => [⟨"MPITraits<$1>", [("1", "Pod")]⟩]
+  | "fv3" => [⟨"MPITraits<FieldVector<$1,$2>>", [("1", "int"), ("2", "3")]⟩]
+  | "fv2" => [⟨"MPITraits<FieldVector<$1,$2>>", [("1", "int"), ("2", "2")]⟩]
+  | "fvp" => [⟨"MPITraits<FieldVector<$1,$2>>", [("1", "std::pair<long long,char>"), ("2", "2")]⟩,
+              ⟨"MPITraits<std::pair<$1,$2>>", [("1", "long long"), ("2", "char")]⟩, ⟨"MPITraits<$1>", [("1", "long long")]⟩]
+  | "big96" => [⟨"MPITraits<bigunsignedint<$1>>", [("1", "96")]⟩]
+  | "big40" => [⟨"MPITraits<bigunsignedint<$1>>", [("1", "40")]⟩]
+  | "pair" => [⟨"MPITraits<std::pair<$1,$2>>", [("1", "int"), ("2", "char")]⟩]
+  | "pairis" => [⟨"MPITraits<std::pair<$1,$2>>", [("1", "int"), ("2", "short")]⟩]
+  | "pairlc" => [⟨"MPITraits<std::pair<$1,$2>>", [("1", "long long"), ("2", "char")]⟩, ⟨"MPITraits<$1>", [("1", "long long")]⟩]
+  | "ppair" => [⟨"MPITraits<std::pair<$1,$2>>", [("1", "std::pair<long long,char>"), ("2", "short")]⟩,
+                ⟨"MPITraits<std::pair<$1,$2>>", [("1", "long long"), ("2", "char")]⟩, ⟨"MPITraits<$1>", [("1", "long long")]⟩]
+  | "pli" => [⟨"MPITraits<ParallelLocalIndex<$1>>", [("1", "int")]⟩]
+  | "ip" => [⟨"MPITraits<IndexPair<$1,ParallelLocalIndex<$2>>>", [("1", "int"), ("2", "int")]⟩,
+             ⟨"MPITraits<ParallelLocalIndex<$1>>", [("1", "int")]⟩]
+  | _ => []
+
+/-- element types with a `ComposeMPITraits` line (`is_intrinsic`) -/
+def isIntrinsicTy (ty : String) : Bool :=
+  ty == "int" || ty == "long" || ty == "double" || ty == "char" || ty == "complex" || ty == "uchar" || ty == "short"
+    || ty == "ushort" || ty == "uint" || ty == "ulong" || ty == "float" || ty == "ldouble" || ty == "cfloat" || ty == "cldouble"
+
+/-- the C++ type of the functor behind a functor name of the harness -/
+def functorType (ty fn : String) : String :=
+  match fn with
+  | "sum" => "std::plus<" ++ cppType ty ++ ">"
+  | "prod" => "std::multiplies<" ++ cppType ty ++ ">"
+  | "min" => "Dune::Min<" ++ cppType ty ++ ">"
+  | "max" => "Dune::Max<" ++ cppType ty ++ ">"
+  | "xor" => "std::bit_xor<" ++ cppType ty ++ ">"
+  | "gsum" => "std::plus<>"
+  | "gprod" => "std::multiplies<>"
+  | "gxor" => "std::bit_xor<>"
+  | "gmin" => "GMin"
+  | "gmax" => "GMax"
+  | "left" => "Left"
+  | "right" => "Right"
+  | "first" => "First"
+  | "aff" => "Aff"
+  | "cwmax" => "CwMax"
+  | f => f
+
+/-- the `Generic_MPI_Op<Type, BinaryFunction>::get()` singleton behind a reduction — none for the four named
+functors on intrinsic types, which `ComposeMPIOp` maps to predefined handles -/
+def opUses (ty fn : String) : List Reg.Use :=
+  let named := fn == "sum" || fn == "prod" || fn == "min" || fn == "max"
+  if named && isIntrinsicTy ty then []
+  else [⟨"Generic_MPI_Op<$1,$2,$3>", [("1", cppType ty), ("2", functorType ty fn), ("3", "void")]⟩]
 
 end DV.C07
